@@ -126,7 +126,7 @@ def corner_calls(M, rec, rng, reps):
             s = {"f": float, "0d": lambda x: np.array(float(x)), "1": lambda x: np.array([float(x)])}[mode]
         else:
             s = lambda x: cs.DM(float(x))  # noqa: E731
-        T = rng.choice((10, 5, 15, 7.5)) / 3600
+        T = rng.choice((10, 5, 15, 7.5, 7.5, 3600 * 1.5, 3600 * 4.0)) / 3600  # incl. sampling times > 1 (w/T vs w*T)
         rmax = rng.uniform(160, 200)
         rc = rng.uniform(25, 40)
         C = rng.uniform(1000, 4500)
